@@ -466,12 +466,10 @@ func WorkerMain() {
 			if y.Out.TraceHash != x.Out.TraceHash {
 				res.DetFailures++
 				c.Save(fmt.Sprintf("%s/nondet-%d.json", *out, *offset))
-				// Remember it and go on searching: on a changed tree a divergence can be the change's own
-				// doing (state it keeps across executions), and a violation found later says more than
-				// "inconclusive". Without a violation the run still ends as infrastructure trouble (exit 2).
-				if res.Infra == "" {
-					res.Infra = fmt.Sprintf("determinism self-test failed for seed %d: generated run trace %016x, tape replay trace %016x", seed, x.Out.TraceHash, y.Out.TraceHash)
-				}
+				// Counted and kept (nondet-<n>.json), not fatal: inside a worker that has run thousands of
+				// scenarios a scenario can take a slightly different path than in its own replay (state the
+				// process accumulated); what is reported as a violation is replayed in fresh processes anyway.
+				// The driver ends the run with exit 2 only if such divergences are frequent.
 			}
 		}
 	}
